@@ -341,3 +341,92 @@ pub fn to_byte_storage(v: &Value) -> Option<Value> {
 
 #[allow(dead_code)]
 fn _unused(_: Complex) {}
+
+/// Index of a function's body in `Assembly::functions`
+pub fn function_index(f: &crate::Function) -> usize {
+    f.index
+}
+
+// ---- C13: override of the `pool` worker count (0 = unset: behaviour unchanged)
+static POOL_MAX_THREADS: std::sync::atomic::AtomicUsize = std::sync::atomic::AtomicUsize::new(0);
+
+/// Override the number of workers of the `pool` thread pool (read once, when the first
+/// `pool` runs in this process). `None` restores the default (available parallelism).
+pub fn set_pool_max_threads(n: Option<usize>) {
+    POOL_MAX_THREADS.store(n.unwrap_or(0), std::sync::atomic::Ordering::SeqCst);
+}
+
+/// The override set by [`set_pool_max_threads`], if any
+pub fn pool_max_threads() -> Option<usize> {
+    match POOL_MAX_THREADS.load(std::sync::atomic::Ordering::SeqCst) {
+        0 => None,
+        n => Some(n),
+    }
+}
+
+// ---- C12: keys of the thread-local memo caches, and a per-thread switch (inert unless set)
+// that makes a cache forget its entries on every use (so that cache can be ruled in or out
+// as the cause of a history-dependent result)
+pub mod c12 {
+    use std::cell::Cell;
+    use std::hash::{Hash, Hasher};
+
+    use rapidhash::quality::RapidHasher;
+
+    use crate::{Function, Node};
+
+    pub const UN: u32 = 1;
+    pub const ANTI: u32 = 2;
+    pub const UNDER: u32 = 4;
+    pub const SIG: u32 = 8;
+    pub const PURITY: u32 = 16;
+    pub const PRE_EVAL: u32 = 32;
+    pub const ZIP_FAST: u32 = 64;
+
+    thread_local! {
+        static BYPASS: Cell<u32> = const { Cell::new(0) };
+    }
+    /// Caches whose bit is set are emptied every time they are consulted in this thread
+    pub fn set_bypass(mask: u32) {
+        BYPASS.with(|b| b.set(mask));
+    }
+    pub fn bypassed(bit: u32) -> bool {
+        BYPASS.with(|b| b.get() & bit != 0)
+    }
+    /// The key of `nodes_all_sigs`' cache (check.rs: hash of the slice)
+    pub fn sig_key(nodes: &[Node]) -> u64 {
+        let mut hasher = RapidHasher::new(1);
+        nodes.hash(&mut hasher);
+        hasher.finish()
+    }
+    /// The hash behind `Node == Node`, `HashMap<Node, _>` (pre_eval.rs, zip.rs) and the
+    /// purity cache (tree.rs `is_min_purity`)
+    pub fn node_key(node: &Node) -> u64 {
+        let mut hasher = RapidHasher::new(1);
+        node.hash(&mut hasher);
+        hasher.finish()
+    }
+    /// The key of the un / anti / under inverse caches (un.rs, under.rs: `hash_with_span` of each node)
+    pub fn inverse_key(nodes: &[Node]) -> u64 {
+        let mut hasher = RapidHasher::new(1);
+        for node in nodes {
+            node.hash_with_span(&mut hasher);
+        }
+        hasher.finish()
+    }
+    /// (index into `Assembly::functions`, body hash, binding index of the origin)
+    pub fn function_parts(f: &Function) -> (usize, u64, Option<usize>) {
+        (f.index, f.verif_body_hash(), f.origin.binding())
+    }
+}
+
+/// C06: the slice-valued sided fill extension of `CowSlice` (used by `take`)
+impl Cow {
+    pub fn extend_repeat_slice_fill(&mut self, s: &[f64], left: bool, count: usize) {
+        let fill: crate::context::FillValue<&[f64]> = crate::context::FillValue {
+            value: s,
+            side: left.then_some(crate::SubSide::Left),
+        };
+        self.0.extend_repeat_slice_fill(fill, count)
+    }
+}
